@@ -340,6 +340,13 @@ def identity_helmholtz(I, ctx, states):
 
 
 # ---------------------------------------------------------------- monotone density, viscosity
+def visc_key(d, mu):
+    """finding class of a viscosity failure: the density equal to dcritical makes delta - 1 == 0,
+    which power_array inverts"""
+    if d == 322.0 and isinstance(mu, tuple) and mu[:2] == ('raise', 'ZeroDivisionError'): return 'visc:critical-density'
+    return 'visc:not-positive'
+
+
 def monotone_and_visc(I, ctx, s1, s2, s3):
     name = 'density-increases-with-pressure'
     nv = 0
@@ -360,7 +367,7 @@ def monotone_and_visc(I, ctx, s1, s2, s3):
             mu = call(I.visc, float(ra[0]), t)
             nv += 1
             if not (isnum(mu) and mu > 0):
-                ctx.failure('viscosity-positive', 'visc:not-positive', {'fn': 'visc', 'd': float(ra[0]), 't': t}, repr(mu), 'visc > 0')
+                ctx.failure('viscosity-positive', visc_key(float(ra[0]), mu), {'fn': 'visc', 'd': float(ra[0]), 't': t}, repr(mu), 'visc > 0')
             else: vmin = min(vmin, float(mu))
     for (d, t, p) in s3:
         d2 = d * (1 + 1e-3)
@@ -379,6 +386,15 @@ def monotone_and_visc(I, ctx, s1, s2, s3):
         nv += 1
         if not (isnum(mu) and mu > 0):
             ctx.failure('viscosity-positive', 'visc:not-positive', {'fn': 'visc', 'd': d, 't': t}, repr(mu), 'visc > 0')
+        else: vmin = min(vmin, float(mu))
+    # the critical density itself, as the Python float the module defines (dcritical = 322.0)
+    for t in (T_CRIT_K - TC_K, 0.01, 100.0, 400.0, 800.0):
+        d = 322.0
+        ctx.count(('visc', d, t))
+        mu = call(I.visc, d, t)
+        nv += 1
+        if not (isnum(mu) and mu > 0):
+            ctx.failure('viscosity-positive', visc_key(d, mu), {'fn': 'visc', 'd': d, 't': t}, repr(mu), 'visc > 0')
         else: vmin = min(vmin, float(mu))
     ctx.oracle_cases(name, len(s1) + len(s2) + len(s3))
     ctx.oracle_cases('viscosity-positive', nv, min_viscosity=vmin)
